@@ -7,6 +7,8 @@ import (
 	"encoding/json"
 	"fmt"
 	"os"
+	"sync"
+	"time"
 
 	"reservoir/config"
 
@@ -20,7 +22,9 @@ type out struct {
 	File         string              `json:"file"`
 	Reloaded     map[string]string   `json:"reloaded"`
 	LoadError    string              `json:"load_error,omitempty"`
-	ReloadReset  bool                `json:"reload_reset,omitempty"` // the start-up after the run found the file unusable and reset it to the defaults
+	// Notified[i]: what the listeners of the settings were told while update i was applied ("path=value")
+	Notified    [][]string `json:"notified"`
+	ReloadReset bool       `json:"reload_reset,omitempty"` // the start-up after the run found the file unusable and reset it to the defaults
 }
 
 func main() {
@@ -33,6 +37,13 @@ func main() {
 	}
 	config.OverrideFromFlags(cfg)
 	o.AfterFlags = cfgkit.Vector(cfg)
+	var nmu sync.Mutex
+	var told []string
+	cfgkit.SubscribeAll(cfg, func(path, value string) {
+		nmu.Lock()
+		told = append(told, path+"="+value)
+		nmu.Unlock()
+	})
 	var updates []map[string]any
 	if s := os.Getenv("CFGCLI_UPDATES"); s != "" {
 		if err := json.Unmarshal([]byte(s), &updates); err != nil {
@@ -48,6 +59,11 @@ func main() {
 			o.UpdateErrors = append(o.UpdateErrors, "")
 		}
 		o.AfterUpdates = append(o.AfterUpdates, cfgkit.Vector(cfg))
+		time.Sleep(5 * time.Millisecond) // notifications are delivered on goroutines of their own
+		nmu.Lock()
+		o.Notified = append(o.Notified, told)
+		told = nil
+		nmu.Unlock()
 	}
 	if b, err := os.ReadFile("var/config.json"); err == nil {
 		o.File = string(b)
